@@ -98,7 +98,7 @@ var c06Positions = []string{
 	"SPYONLY:{% macro X_FN() %}mac{% endmacro %}{{ xs.X_FN() }}{% for i in xs %}{{ i.X_FN() }}{% endfor %}",
 }
 
-const c06Routes = 16
+const c06Routes = 18
 
 func c06Expand(pos string, kind string, name string) (string, bool) {
 	app := "v|" + name
@@ -194,6 +194,16 @@ func c06Build(route int, frag string) map[string]string {
 		t["sb"] = "S:{% include 'in1' %}"
 		t["in1"] = "I:{% from 'mlib' import mac %}{{ mac() }}"
 		t["mlib"] = "{% macro mac() %}M{% endmacro %}{% set v = 'vv' %}{% set xs = [1] %}{% set yes = true %}T:" + frag
+	case 16, 17:
+		// the sandboxed include stands inside a block of a template that extends a layout, and what it includes asks for
+		// parent(): whatever that resolves to (the engine may refuse it outside a block), the forbidden name written in the
+		// layout's block must not run on behalf of the sandboxed template
+		t["lay6"] = "LAY<{% block c %}[" + frag + "]{% endblock %}>"
+		t["main"] = "{% extends 'lay6' %}{% block c %}OUT[{% include 'sb' sandboxed %}]{% endblock %}"
+		t["sb"] = "S:{{ parent() }}"
+		if route == 17 {
+			t["sb"] = "S:{% macro up() %}{{ parent() }}{% endmacro %}{{ up() }}{{ _self.up() }}"
+		}
 	default:
 		t["sb"] = "S:{% include 'in1' %}"
 		t["in1"] = "I:{% include 'in2' only %}"
@@ -350,7 +360,7 @@ func (p *c06) Run(rec *core.Recorder, seed uint64, idx int, tier string) {
 		}
 	}
 	allowedF := map[string]bool{"okf": true, "default": true, "length": true, "f1": true, "f2": true, "upper": true, "merge": true, "e": true, "spaceless": true, "raw": true, "escape": true}
-	allowedG := map[string]bool{"okg": true, "g1": true, "g2": true, "range": true, "max": true, "cycle": true, "pm": true, "mac": true, "parent": true, "block": true, "go": true, "hop": true, "imac": true}
+	allowedG := map[string]bool{"okg": true, "g1": true, "g2": true, "range": true, "max": true, "cycle": true, "pm": true, "mac": true, "parent": true, "block": true, "up": true, "go": true, "hop": true, "imac": true}
 	mkPolicy := func(forbid bool) twig.SecurityPolicy {
 		f, g := map[string]bool{}, map[string]bool{}
 		for k, v := range allowedF {
@@ -402,7 +412,7 @@ func (p *c06) Run(rec *core.Recorder, seed uint64, idx int, tier string) {
 		}
 	}
 	var sv *twig.SecurityViolation
-	if spyOnly || (route >= 10 && route <= 12) || p.afterDisable {
+	if spyOnly || (route >= 10 && route <= 12) || route == 16 || route == 17 || p.afterDisable {
 		// (after DisableSandbox: what error an include that asks for the sandbox gets is not stated; the forbidden callable
 		// must not run)
 		// (routes 10-12: whether the sandboxed template can resolve a macro of its includer at all is the engine's business;
